@@ -236,6 +236,9 @@ func main() {
 	runKeysets(o, hlib.NewRng(*hlib.FlagSeed, "c01ks"+*hlib.FlagMode), mut)
 	runKMS(o, hlib.NewRng(*hlib.FlagSeed, "c01kms"+*hlib.FlagMode), mut)
 	runAADBits(o, hlib.NewRng(*hlib.FlagSeed, "c01aad"+*hlib.FlagMode))
+	// last (it registers a key manager and more KMS stubs): keyset shapes × legacy-adapter / full primitives ×
+	// prefix types × prefix mutations and short inputs (adapter.go)
+	runAdapters(o, hlib.NewRng(*hlib.FlagSeed, "c01adp"+*hlib.FlagMode), mut)
 }
 
 // exercise runs the two-way correspondence (and, in mut mode, the mutation stream) for one AEAD
